@@ -27,8 +27,12 @@
   `acc_linearizable_prims`, `acc_no_lost_flag_update`, `acc_closed_stays`, `acc_closed_dominates_partial`
   cover ALL methods (as their access programs, XMT.StateAcc) under all schedules at the level of
   read-modify-write primitives; `setChannel_not_linearizable`, `setChannel_off_no_linearization_point`,
-  `tag_not_linearizable`, `ready_not_linearizable` prove that SetChannel / Tag / the Closed()-then-load
-  predicates are NOT linearizable as single operations (known findings, replayed on the real code);
+  prove that SetChannel is NOT linearizable as a single operation (open known findings, replayed on the
+  real code); Tag and the Closed()-then-load predicates were not either and have been REPAIRED in
+  c2/state.go (Tag = tryUnset(stateSeen); one atomic load per predicate): `orig_tag_not_linearizable`,
+  `orig_ready_not_linearizable` are witnesses about the original access programs (`Call.origTag`,
+  `Call.origReady`), `repaired_tag_same_schedule`, `repaired_ready_same_schedule`, `tag_is_test_and_clear`,
+  `predicates_are_single_loads` are about the code as it is now;
   `access_lists_match_source`, `model_accesses_follow_source` tie every method's access list to the source.
 -/
 import XMT.StateOwners
@@ -566,30 +570,82 @@ theorem setChannel_off_no_linearization_point :
     (∀ o ∈ StateAccLin.seqOutcomes stChannelValue progs, o = (stChannel ||| stChannelProxy ||| stChannelUpdated, [[1], [1, 1]])) ∧
     StateAccLin.linearizableA stChannelValue progs [0, 1, 1, 1, 1, 0] = false := by decide
 
-/-- **`Tag` is not linearizable with two concurrent taggers** (proved negation; finding
-`not-linearizable:Tag:both-report-seen`): `Seen()` load, then `Unset(stateSeen)` — both callers load
-before either clears, both return `true`; sequentially exactly one does.  (In c2 `Tag` is only called
-from `Proxy.tags`, i.e. from `Session.next` on the session's own goroutine: one tagger at a time.) -/
-theorem tag_not_linearizable :
-    let progs : List (List StateAcc.Call) := [[.tag], [.tag]]
+/-- **`Tag` BEFORE the repair was not linearizable with two concurrent taggers** (witness about the
+original access program `Call.origTag`: `Seen()` load, then `Unset(stateSeen)`; repaired finding
+`not-linearizable:Tag:both-report-seen`): both callers load before either clears, both return
+`true`; sequentially exactly one does. -/
+theorem orig_tag_not_linearizable :
+    let progs : List (List StateAcc.Call) := [[.origTag], [.origTag]]
     let s := StateAcc.runA (StateAcc.ASys.init stSeen progs) [0, 1, 0, 0, 1, 1]
     s.completed = true ∧ s.thr.map (·.rets) = [[1], [1]] ∧ s.mem = 0 ∧
     StateAccLin.seqOutcomes stSeen progs = [(0, [[1], [0]]), (0, [[0], [1]])] ∧
     StateAccLin.linearizableA stSeen progs [0, 1, 0, 0, 1, 1] = false := by decide
 
-/-- **A two-load predicate can report a combination that never existed** (proved negation; finding
+/-- …the repaired `Tag` (`return s.tryUnset(stateSeen)`: one compare-and-swap loop) on the same
+schedule: thread 1's compare-and-swap fails, it reloads, finds the mark gone and reports `false`;
+exactly one tagger wins and the outcome is a sequential one. -/
+theorem repaired_tag_same_schedule :
+    let progs : List (List StateAcc.Call) := [[.tag], [.tag]]
+    let s := StateAcc.runA (StateAcc.ASys.init stSeen progs) [0, 1, 0, 0, 1, 1]
+    s.completed = true ∧ s.thr.map (·.rets) = [[1], [0]] ∧ s.mem = 0 ∧ s.casFail = 1 ∧
+    StateAccLin.linearizableA stSeen progs [0, 1, 0, 0, 1, 1] = true := by decide
+
+/-- **The repaired `Tag` is the test-and-clear primitive**: its access program and its sequential
+meaning are those of the direct call `tryUnset(stateSeen)`, so every all-schedule theorem about the
+primitives (`linearizable`, `linearizable_realtime`, `test_and_clear_single_winner` with `k = kSeen`:
+of any number of concurrent taggers exactly one reports the mark) is a theorem about `Tag`. -/
+theorem tag_is_test_and_clear :
+    StateAcc.Call.tag.meth = (StateAcc.Call.prim (.tryUnset stSeen)).meth ∧ stSeen = 2 ^ kSeen ∧ kSeen < 16 ∧
+    ∀ w, StateAcc.Call.tag.seq w = (StateAcc.Call.prim (.tryUnset stSeen)).seq w := by
+  refine ⟨rfl, stSeen_eq, kSeen_lt, fun w => ?_⟩
+  have := StateAcc.solo_eq_seq .tag w
+  have h2 := StateAcc.solo_eq_seq (.prim (.tryUnset stSeen)) w
+  rw [show StateAcc.Call.tag.meth = (StateAcc.Call.prim (.tryUnset stSeen)).meth from rfl, h2] at this
+  exact (Option.some.inj this).symm
+
+/-- **A two-load predicate could report a combination that never existed** (witness about the
+original access program `Call.origReady`: `Closed()` load, then a second load; repaired finding
 `not-linearizable:Ready:straddles-close`): `Ready()` loads `Closed` (clear), another thread runs
 `Set(stateClosed)` and then `Set(stateReady)`, `Ready()` loads `Ready` (set) and returns `true` — the
 word was never "ready and not closed" (it was 0, closed, closed|ready), every sequential order
-returns `false`, and the call returns `true` after the session was closed.  Needs a flag set after
-the closed flag; what does hold: `acc_closed_stays`, `acc_closed_dominates_partial` below. -/
-theorem ready_not_linearizable :
-    let progs : List (List StateAcc.Call) := [[.ready], [.prim (.set stClosed), .prim (.set stReady)]]
+returns `false`, and the call returned `true` after the session was closed. -/
+theorem orig_ready_not_linearizable :
+    let progs : List (List StateAcc.Call) := [[.origReady], [.prim (.set stClosed), .prim (.set stReady)]]
     let s := StateAcc.runA (StateAcc.ASys.init 0 progs) [0, 1, 1, 1, 1, 0]
     s.completed = true ∧ s.thr.map (·.rets) = [[1], [1, 1]] ∧ s.mem = stClosed ||| stReady ∧
     ready 0 = false ∧ ready stClosed = false ∧ ready (stClosed ||| stReady) = false ∧
     (∀ o ∈ StateAccLin.seqOutcomes 0 progs, o = (stClosed ||| stReady, [[0], [1, 1]])) ∧
     StateAccLin.linearizableA 0 progs [0, 1, 1, 1, 1, 0] = false := by decide
+
+/-- …the repaired `Ready` (one load) on the same schedule answers `false` and the outcome is the
+sequential one. -/
+theorem repaired_ready_same_schedule :
+    let progs : List (List StateAcc.Call) := [[.ready], [.prim (.set stClosed), .prim (.set stReady)]]
+    let s := StateAcc.runA (StateAcc.ASys.init 0 progs) [0, 1, 1, 1, 1, 0]
+    s.completed = true ∧ s.thr.map (·.rets) = [[0], [1, 1]] ∧ s.mem = stClosed ||| stReady ∧
+    StateAccLin.linearizableA 0 progs [0, 1, 1, 1, 1, 0] = true := by decide
+
+/-- **The repaired predicates are single atomic reads of the sequential predicate.**  `Ready`,
+`CanRecv`, `ChannelCanStart`, `Closing` / `Shutdown` / `RecvClosed` / `SendClosed` / `WakeClosed`
+(and the plain flag reads and `Last`) perform exactly ONE shared-memory access, and what they return
+is the sequential predicate (`Call.seq`, the functions `closed_dominates` is about) of the word that
+access read, the word being left alone.  The load is the linearization point: under every schedule
+the answer is the truth about a word the session really held, so a word with the closed flag never
+yields ready / receivable / startable / non-closing. -/
+theorem predicates_are_single_loads (c : StateAcc.Call)
+    (hc : c = .ready ∨ c = .canRecv ∨ c = .canStart ∨ c = .last ∨ (∃ m, c = .dom m) ∨ (∃ m, c = .simple m)) :
+    ∃ k, c.meth = .load k ∧ ∀ w, k w = .ret (c.seq w).2 ∧ (c.seq w).1 = w := by
+  have key : ∀ k, c.meth = .load k → (∀ w, ∃ r, k w = .ret r) → (∀ w, (c.seq w).1 = w) →
+      ∀ w, k w = .ret (c.seq w).2 ∧ (c.seq w).1 = w := by
+    intro k hk hr hw w
+    refine ⟨?_, hw w⟩
+    obtain ⟨r, hr⟩ := hr w
+    have := StateAcc.solo_eq_seq c w
+    rw [hk] at this
+    simp only [StateAcc.solo, hr, Option.some.injEq] at this
+    rw [hr, ← this]
+  rcases hc with rfl | rfl | rfl | rfl | ⟨m, rfl⟩ | ⟨m, rfl⟩
+  all_goals exact ⟨_, rfl, key _ rfl (fun w => ⟨_, rfl⟩) (fun w => rfl)⟩
 
 
 /-! ### tie: the access lists of every method, regenerated from the source -/
@@ -613,15 +669,15 @@ theorem model_accesses_follow_source (c : StateAcc.Call) (w : Nat) :
 /-- coverage: the rows are reached in full (one word per row; the two rows with exclusive branches —
 `ChannelCanStop`, `SetChannel` — by the words of their branches) -/
 example :
-    StateAccShape.trace 8 (StateAcc.Call.canRecv).meth stCanRecv = [1, 1, 1, 1] ∧
-    StateAccShape.trace 8 (StateAcc.Call.canStart).meth 0 = [1, 1, 1] ∧
-    StateAccShape.trace 8 (StateAcc.Call.tag).meth stSeen = [1, 4, 1, 3, 5] ∧
-    StateAccShape.trace 8 (StateAcc.Call.canStop).meth (stChannel ||| stChannelUpdated) = [1, 1, 1, 4, 1, 3, 5, 1] ∧
-    StateAccShape.trace 8 (StateAcc.Call.canStop).meth stChannel = [1, 1, 1, 4, 1, 5, 1] ∧
+    StateAccShape.trace 8 (StateAcc.Call.canRecv).meth stCanRecv = [1] ∧
+    StateAccShape.trace 8 (StateAcc.Call.canStart).meth 0 = [1] ∧
+    StateAccShape.trace 8 (StateAcc.Call.tag).meth stSeen = [4, 1, 3, 5] ∧
+    StateAccShape.trace 8 (StateAcc.Call.canStop).meth (stChannel ||| stChannelUpdated) = [1, 1, 4, 1, 3, 5, 1] ∧
+    StateAccShape.trace 8 (StateAcc.Call.canStop).meth stChannel = [1, 1, 4, 1, 5, 1] ∧
     StateAccShape.trace 8 (StateAcc.Call.setChannel true).meth 0 = [1, 4, 1, 3, 5, 4, 1, 3, 5] ∧
     StateAccShape.trace 8 (StateAcc.Call.setChannel false).meth (stChannel ||| stChannelValue) = [1, 1, 1, 4, 1, 3, 5, 4, 1, 3, 5] ∧
-    StateAccShape.trace 8 (StateAcc.Call.ready).meth 0 = [1, 1] ∧
-    StateAccShape.trace 8 (StateAcc.Call.dom stClosing).meth 0 = [1, 1] ∧
+    StateAccShape.trace 8 (StateAcc.Call.ready).meth 0 = [1] ∧
+    StateAccShape.trace 8 (StateAcc.Call.dom stClosing).meth 0 = [1] ∧
     StateAccShape.trace 8 (StateAcc.Call.prim (.trySet stClosing)).meth 0 = [4, 1, 3, 5] := by decide
 
 
@@ -726,8 +782,8 @@ theorem acc_closed_dominates_partial (c : StateAcc.Call) (v : Nat) (hv : StateAc
 Ready and thread 2 runs Tag; every prefix keeps Ready once set, and the final word has all updates -/
 example :
     let progs : List (List StateAcc.Call) := [[.setChannel true], [.prim (.set stReady)], [.tag]]
-    let s := StateAcc.runA (StateAcc.ASys.init stSeen progs) [0, 2, 1, 0, 1, 0, 2, 2, 0, 0, 0, 0]
-    s.completed = true ∧ s.mem = stReady ||| stChannelValue ||| stChannelUpdated ∧ s.casFail = 1 ∧
+    let s := StateAcc.runA (StateAcc.ASys.init stSeen progs) [0, 2, 1, 0, 1, 0, 2, 2, 2, 0, 0, 0, 0]
+    s.completed = true ∧ s.mem = stReady ||| stChannelValue ||| stChannelUpdated ∧ s.casFail = 2 ∧
     (∀ p ∈ progs, ∀ c ∈ p, ∀ op ∈ StateAccInv.Call.prims c, op.clears kReady = false) := by decide
 
 /-! ### regenerated source (session 3): the read-only predicates of c2/state.go are translated from
